@@ -21,6 +21,7 @@ def sh(cmd, cwd=None, env=None, timeout=3600):
 
 def main():
     prop, seed_dir, name = sys.argv[1:4]
+    seed_dir = os.path.abspath(seed_dir)
     tier = "quick"
     suite = "--no-suite" not in sys.argv
     if "--tier" in sys.argv:
@@ -65,7 +66,7 @@ def main():
         shutil.rmtree(wt, ignore_errors=True)
     os.makedirs(out, exist_ok=True)
     for f in ("patch.diff", "demo.py", "notes.md"):
-        if os.path.exists(os.path.join(seed_dir, f)):
+        if os.path.exists(os.path.join(seed_dir, f)) and os.path.abspath(seed_dir) != os.path.abspath(out):
             shutil.copy(os.path.join(seed_dir, f), os.path.join(out, f))
     notes = open(os.path.join(seed_dir, "notes.md")).read() if os.path.exists(os.path.join(seed_dir, "notes.md")) else ""
     meta["needs_to_manifest"] = notes[:1500]
